@@ -280,24 +280,19 @@ impl<'a> Lexer<'a> {
     pub fn seek_substr(&mut self, substr: impl AsRef<[u8]>) -> Option<Substr<'a>> {
         //
         let substr = substr.as_ref();
-        let start = self.pos;
-        let mut matched = 0;
-        loop {
-            if self.pos >= self.buf.len() {
-                return None
+        let start = self.pos.min(self.buf.len());
+        // the first occurrence at or after the current position; a partial match that fails does not
+        // consume the bytes it covered (they may begin the real occurrence: "\n\nEI" contains "\nEI")
+        match self.buf[start..].windows(substr.len()).position(|w| w == substr) {
+            Some(offset) => {
+                self.pos = start + offset + substr.len();
+                Some(self.new_substr(start..(self.pos - substr.len())))
             }
-            if self.buf[self.pos] == substr[matched] {
-                matched += 1;
-            } else {
-                matched = 0;
+            None => {
+                self.pos = self.buf.len();
+                None
             }
-            if matched == substr.len() {
-                break;
-            }
-            self.pos += 1;
         }
-        self.pos += 1;
-        Some(self.new_substr(start..(self.pos - substr.len())))
     }
 
     //TODO perhaps seek_substr_back should, like back(), move to the first letter of the substr.
